@@ -543,8 +543,34 @@ fn run_c18(ctx: &mut Ctx) {
     big_writer_cases(ctx);
     big_reader_cases(ctx);
     ctx.tally("histories");
-    ctx.samples.push(json!({"kind":"reader-history","base":6,"ops":["Sub(0, 3)","U16(1)","Bytes(0, 4)","U8(1)"]}));
-    ctx.samples.push(json!({"kind":"writer-history","ops":["U32","At(2, 2)","Bytes(1)","At(1, 4)","At(2, 4)"]}));
+    // samples: two histories of the explored space, re-walked here through the model's own
+    // actions()/next_state() (every step must be an enabled action) with the state they reach
+    {
+        let m = ReaderModel { max_depth: rd };
+        let mut st = m.init_states().into_iter().find(|x| x.base == 6).unwrap();
+        let ops = [ROp::Sub(0, 3), ROp::U16(1), ROp::Bytes(0, 4), ROp::U8(1)];
+        let mut ok = true;
+        for op in ops {
+            let mut en = Vec::new();
+            m.actions(&st, &mut en);
+            ok &= en.contains(&op);
+            st = apply_reader(&st, op);
+        }
+        ctx.samples.push(json!({"kind":"reader-history","base":6,"ops":ops.iter().map(|o| format!("{o:?}")).collect::<Vec<_>>(),
+            "every_step_enabled": ok, "reached": {"readers": st.live.iter().map(|l| reader_content(&l.real).map(|c| hex(&c))).collect::<Vec<_>>(), "conforms": st.bad.is_none()}}));
+        let m = WriterModel { max_depth: wd_ };
+        let mut st = m.init_states().remove(0);
+        let ops = [WOp::U32, WOp::At(2, 2), WOp::Bytes(1), WOp::At(1, 4), WOp::At(2, 4)];
+        let mut ok = true;
+        for op in ops {
+            let mut en = Vec::new();
+            m.actions(&st, &mut en);
+            ok &= en.contains(&op);
+            st = apply_writer(&st, op);
+        }
+        ctx.samples.push(json!({"kind":"writer-history","ops":ops.iter().map(|o| format!("{o:?}")).collect::<Vec<_>>(),
+            "every_step_enabled": ok, "reached": {"writer": hex(&st.real), "conforms": st.bad.is_none()}}));
+    }
 }
 
 /// Writers that grow across 4 KiB and 64 KiB (capacity growth, 16-bit offsets): every fill size
@@ -1068,7 +1094,15 @@ fn run_c09(ctx: &mut Ctx) {
     }
     ctx.nontrivial_direct = ctx.states.saturating_sub(4);
     ctx.tally("histories");
-    ctx.samples.push(json!({"kind":"enc-history","prefix":7,"items":[2, 6, 9], "names":["control-3","data-all","avp-300"]}));
+    {
+        let m = EncModel { max_depth: depth, alone: alone.clone() };
+        let mut st = m.init_states().into_iter().find(|x| x.prefix == 7).unwrap();
+        for a in [2u8, 6, 9] {
+            st = apply_enc(&m.alone, &st, a);
+        }
+        ctx.samples.push(json!({"kind":"enc-history","prefix":7,"items":[2, 6, 9], "names":["control-3","data-all","avp-300"],
+            "reached": {"writer_octets": st.real.len(), "first_octets": hex(&st.real[..st.real.len().min(24)]), "conforms": st.bad.is_none()}}));
+    }
     let _ = alone;
 }
 
